@@ -430,10 +430,11 @@ func build(tier string) []explore.Scenario {
 
 func main() {
 	explore.Main(explore.Config{
-		Property:  "C12",
-		Technique: "exhaustive enumeration of (history length x delivered bookmark x further writes x watch flavour), of derived bookmark byte strings and of tail sizes on the real inmem watch ring, each watch run to exact quiescence on the controlled scheduler and compared with the commit log",
-		Rule:      "11 history configurations x histories of 0..7 writes x {0,1,2} further writes: every delivered bookmark restarted on 3 flavours; 100+ derived byte strings per history; every tail size 1..capacity+2; non-trivial = distinct (configuration, history, further) cases",
-		Assume:    []string{"deterministic default schedule (consumers keep up); interleavings of the ring are C02's subject", "a bookmark older than the guaranteed window may be either rejected (invalid-bookmark) or accepted with the exact suffix / a loud Errored"},
-		Extra:     map[string]any{"explanation": "states = (configuration, history, further writes) cases; transitions = scheduler steps; evaluations = restart/tail probes compared with the commit log"},
+		Property:     "C12",
+		RequireShims: true,
+		Technique:    "exhaustive enumeration of (history length x delivered bookmark x further writes x watch flavour), of derived bookmark byte strings and of tail sizes on the real inmem watch ring, each watch run to exact quiescence on the controlled scheduler and compared with the commit log",
+		Rule:         "11 history configurations x histories of 0..7 writes x {0,1,2} further writes: every delivered bookmark restarted on 3 flavours; 100+ derived byte strings per history; every tail size 1..capacity+2; non-trivial = distinct (configuration, history, further) cases",
+		Assume:       []string{"deterministic default schedule (consumers keep up); interleavings of the ring are C02's subject", "a bookmark older than the guaranteed window may be either rejected (invalid-bookmark) or accepted with the exact suffix / a loud Errored"},
+		Extra:        map[string]any{"explanation": "states = (configuration, history, further writes) cases; transitions = scheduler steps; evaluations = restart/tail probes compared with the commit log"},
 	}, build)
 }
